@@ -259,6 +259,12 @@ func (t *FnTrans) locOf(p Val, ptrT types.Type) (*Loc, bool) {
 func (t *FnTrans) unopInstr(x *ssa.UnOp, st *HeapState, reach string) {
 	switch x.Op {
 	case token.MUL: // load
+		if g, ok := x.X.(*ssa.Global); ok {
+			if cg := t.W.constGlobalOf(g); cg != nil {
+				t.setVal(x, t.constGlobalVal(g, cg, x.Type()))
+				return
+			}
+		}
 		p := t.val(x.X)
 		l, ok := t.locOf(p, x.X.Type())
 		if !ok {
@@ -804,4 +810,26 @@ func (t *FnTrans) pointEnv(b *ssa.BasicBlock, idx int, st *HeapState, subst map[
 	e.old = t.entryEnv(t.entry0)
 	e.lookup = t.lookupAt(b, idx, st, subst)
 	return e
+}
+
+// constGlobalVal: the value of a never-assigned package-level slice variable.
+func (t *FnTrans) constGlobalVal(g *ssa.Global, cg *constGlobal, ty types.Type) Val {
+	name := "gconst." + sanitize(g.Pkg.Pkg.Name()+"."+g.Name())
+	es := t.mode.scalarSort(cg.elemT)
+	w, _, _ := intInfo(cg.elemT)
+	if !t.declSet[name] {
+		t.declare(name, "Int")
+		arr := t.declare(name+".arr", arraySort(t.mode.idxSort(), es))
+		var facts []string
+		facts = append(facts, sx("<", name, "0"))
+		for i, c := range cg.elems {
+			b, _ := constToBig(c)
+			facts = append(facts, eq(sx("select", arr, t.mode.intLit64(int64(i), 64)), t.mode.intLit(b, w)))
+		}
+		t.assume("true", and(facts...), "contents of constant package-level slice "+g.Name())
+		t.constArrs[name] = arr
+		t.globalsUsed[g.Pkg.Pkg.Name()+"."+g.Name()] = true
+	}
+	n := t.mode.intLit64(int64(len(cg.elems)), 64)
+	return Val{K: VSlice, T: ty, Sub: []Val{scalar(nil, name), scalar(nil, t.mode.intLit64(0, 64)), scalar(nil, n), scalar(nil, n)}}
 }
